@@ -84,6 +84,9 @@ func LengthEncodedInt(data []byte) (num uint64, isNull bool, n int, err error) {
 func LengthEncodedString(data []byte) ([]byte, int, error) {
 	// Get length
 	num, isNull, n, err := LengthEncodedInt(data)
+	if err != nil {
+		return nil, n, err
+	}
 	// NULL values are encoded with special length values. Represent them with "nil" in Go.
 	if isNull {
 		return nil, n, err
